@@ -21,8 +21,9 @@ var (
 // frames starting from a given frame index. It scans all valid frames from the
 // start position to the end of the WAL (or the first invalid frame), keeps only
 // the latest version of each page (respecting transaction boundaries), and
-// returns them in file offset order. If fullScan is false, frame checksums are
-// not verified since the WAL file is trusted.
+// returns them in file offset order. Frame checksums are always verified for
+// the frames that are scanned; if fullScan is false only the frames before the
+// start position are trusted.
 type CompactingFrameScanner struct {
 	readSeeker io.ReadSeeker
 	walReader  *Reader
@@ -49,11 +50,12 @@ type CompactingFrameScanner struct {
 // fullScan requires startFrame to be 0 so that running checksums can be validated
 // from the beginning of the WAL.
 //
-// If fullScan is false, the scanner will only scan the file sufficiently to find the
-// last valid frame for each page via a simple salt1 and salt2 match, without performing
-// a full checksum validation. This is suitable when the WAL file is trusted (e.g. it's
-// just been generated by SQLite and is known to a priori to be valid). This can be much
-// faster for large WAL files, since it avoids reading the page data for each frame.
+// If fullScan is false, the frames before startFrame are trusted (e.g. they have
+// already been processed by an earlier scan) and the running checksum is seeded from
+// the frame immediately preceding startFrame. Every frame from startFrame onwards is
+// still validated against its salt and checksum: a salt match alone does not mark
+// the end of the valid WAL, since a transaction that spilled to the WAL and was then
+// rolled back leaves frames with the current salts beyond the last valid frame.
 //
 // Scanning stops at the first invalid frame (e.g. salt mismatch, checksum failure if
 // applicable, or partial read).
@@ -204,15 +206,27 @@ func (s *CompactingFrameScanner) Bytes() ([]byte, error) {
 // builds a compacted frame list, keeping only the latest version of each page.
 // Only committed transactions are included.
 func (s *CompactingFrameScanner) scan() (int64, error) {
+	// Frame checksums are cumulative, so when the scan does not start at the first
+	// frame the running checksum is the one stored in the frame preceding the start.
+	if s.start > WALHeaderSize {
+		var prev [8]byte
+		if _, err := s.readSeeker.Seek(s.start-int64(s.header.PageSize)-8, io.SeekStart); err != nil {
+			return 0, fmt.Errorf("seek to checksum preceding start offset %d: %w", s.start, err)
+		}
+		if _, err := io.ReadFull(s.readSeeker, prev[:]); err == io.EOF || err == io.ErrUnexpectedEOF {
+			return 0, nil // Start position is beyond the end of the WAL.
+		} else if err != nil {
+			return 0, err
+		}
+		s.walReader.chksum1 = binary.BigEndian.Uint32(prev[0:])
+		s.walReader.chksum2 = binary.BigEndian.Uint32(prev[4:])
+	}
+
 	// Seek to the start position.
 	if _, err := s.readSeeker.Seek(s.start, io.SeekStart); err != nil {
 		return 0, fmt.Errorf("seek to start offset %d: %w", s.start, err)
 	}
-
-	var buf []byte
-	if s.fullScan {
-		buf = make([]byte, s.header.PageSize)
-	}
+	buf := make([]byte, s.header.PageSize)
 
 	var framesInput int64
 	waitingForCommit := false
